@@ -133,7 +133,7 @@ def machine(rng):
     return {'cores': cores, 'sockets': sockets, 'cpuinfo': 0}
 
 # ---- contents -----------------------------------------------------------------------------------------
-CONTENT_KINDS = ['mix', 'grainy', 'pan', 'noise', 'flat', 'hgrad', 'vgrad', 'dgrad', 'moving', 'text', 'checker', 'rails', 'max', 'zero']
+CONTENT_KINDS = ['mix', 'grainy', 'pan', 'noise', 'flat', 'hgrad', 'vgrad', 'dgrad', 'moving', 'text', 'text_flash', 'checker', 'rails', 'max', 'zero']
 def content(rng, kinds=None, n=None):
     c = {'kind': rng.choice(kinds or CONTENT_KINDS), 'seed': rng.randint(1, 10**6)}
     if n is not None:
